@@ -679,3 +679,54 @@ def inlined_class(cls, keep=()):
 def inlined_function(module, fn, keep=()):
     """a module-level function with the module's other (non-kept) functions and its own closures inlined at their call sites"""
     return inline_helpers(None, fn, keep=keep, module=module)
+
+
+def counter_loops_as_for(fn):
+    """a copy of fn in which `v = 0 ... while v < N: <body>; v += 1` (v assigned nowhere else in the loop, no continue, N not assigned in the loop) is written
+    `for v in range(N): <body>` - the same iterations; a normal form for rules that talk about passes over a table"""
+    from . import norm as N_
+    new = N_.clone(fn)
+
+    def rewrite(stmts):
+        out = []
+        for s in stmts:
+            for f in ('body', 'orelse', 'finalbody'):
+                if getattr(s, f, None) and isinstance(getattr(s, f), list) and not isinstance(s, (ast.FunctionDef, ast.ClassDef)):
+                    setattr(s, f, rewrite(getattr(s, f)))
+            if isinstance(s, ast.While) and isinstance(s.test, ast.Compare) and len(s.test.ops) == 1 and not s.orelse and s.body:
+                t = s.test
+                v = bound = None
+                if isinstance(t.ops[0], ast.Lt) and isinstance(t.left, ast.Name):
+                    v, bound = t.left.id, t.comparators[0]
+                elif isinstance(t.ops[0], ast.Gt) and isinstance(t.comparators[0], ast.Name):
+                    v, bound = t.comparators[0].id, t.left
+                last = s.body[-1]
+                if v is not None and isinstance(last, ast.AugAssign) and isinstance(last.op, ast.Add) and isinstance(last.target, ast.Name) and last.target.id == v and \
+                        isinstance(last.value, ast.Constant) and last.value.value == 1:
+                    writes = [x for x in ast.walk(s) if isinstance(x, (ast.Assign, ast.AugAssign, ast.AnnAssign)) and
+                              any(isinstance(y, ast.Name) and y.id == v for tg in (x.targets if isinstance(x, ast.Assign) else [x.target]) for y in ast.walk(tg))]
+                    bnames = set(y.id for y in ast.walk(bound) if isinstance(y, ast.Name))
+                    bwrites = [x for x in ast.walk(s) if isinstance(x, (ast.Assign, ast.AugAssign, ast.AnnAssign)) and
+                               any(isinstance(y, ast.Name) and y.id in bnames for tg in (x.targets if isinstance(x, ast.Assign) else [x.target]) for y in ast.walk(tg))]
+                    # the counter starts at 0: its reaching definition in front of the loop
+                    init0 = None
+                    for prev in reversed(out):
+                        tg = prev.targets[0] if isinstance(prev, ast.Assign) and len(prev.targets) == 1 else prev.target if isinstance(prev, ast.AnnAssign) else None
+                        if isinstance(tg, ast.Name) and tg.id == v:
+                            init0 = prev
+                            break
+                        if any(isinstance(y, ast.Name) and y.id == v and isinstance(y.ctx, ast.Store) for y in ast.walk(prev)):
+                            break
+                    zero = init0 is not None and isinstance(init0.value, ast.Constant) and init0.value.value == 0
+                    if len(writes) == 1 and not bwrites and zero and not any(isinstance(x, (ast.Continue,)) for x in ast.walk(s)):
+                        f_ = ast.For(target=ast.Name(id=v, ctx=ast.Store()), iter=ast.Call(func=ast.Name(id='range', ctx=ast.Load()), args=[bound], keywords=[]), body=s.body[:-1] or [ast.Pass()],
+                                     orelse=[])
+                        ast.copy_location(f_, s)
+                        ast.fix_missing_locations(f_)
+                        out.append(f_)
+                        continue
+            out.append(s)
+        return out
+    new.body = rewrite(new.body)
+    set_parents(new)
+    return new
